@@ -13,6 +13,10 @@
  *                 the sub-match clause (pmatchOk), writes outside [0,nmatch) / with NOSUB,
  *                 returns an unknown code or leaks; such a suffix never appears on the
  *                 model side, so it is an observable difference.
+ *   y ...same arguments as x...
+ *        same output as `x`, followed by ` ## ` and one *internal* token per exec: `-`, `+`, or
+ *        the whole pmatch array `so,eo;so,eo;...` (compared with the Lean model of the C matcher,
+ *        lean/Usual/C04/CMatch.lean; `?` = timed out)
  *   p <cflags> <pattern-hex> <nmatch> <eflags> <subject-hex>
  *        one exec, prints the whole pmatch array AT&T style: `ok nsub=<n> (0,3)(?,?)`,
  *        `ok nsub=<n> NOMATCH`, or `err ## code=<rc>` (regression-table mode).
@@ -135,6 +139,20 @@ static const char *pmatch_ok(const regmatch_t *pm, long nm, long nsub, long slen
 	return "";
 }
 
+static int want_full;	/* `y` op: also print the whole pmatch array of every exec after ` ## ` */
+static char *fullbuf;
+static size_t fulllen, fullcap;
+static void full_add(const char *s)
+{
+	size_t n = strlen(s);
+	if (fulllen + n + 2 > fullcap) {
+		fullcap = (fullcap + n + 2) * 2;
+		fullbuf = realloc(fullbuf, fullcap);
+	}
+	memcpy(fullbuf + fulllen, s, n + 1);
+	fulllen += n;
+}
+
 static void do_x(char **w, int nw)
 {
 	long cflags, patlen, i;
@@ -178,6 +196,8 @@ static void do_x(char **w, int nw)
 	}
 	printf("ok nsub=%d", rx.re_nsub);
 	nslow = 0;
+	fulllen = 0;
+	if (fullbuf) fullbuf[0] = 0;
 	for (i = 5; i < nw; i++) {
 		uint8_t *sb = NULL;
 		long slen = hc_unhex(w[i], &sb);
@@ -195,13 +215,29 @@ static void do_x(char **w, int nw)
 			/* a pattern that timed out twice on this line is not run again on it */
 			if (nslow >= 2) {
 				printf(" slow");
+				if (want_full) full_add(" ?");
 				continue;
 			}
 			if (run_exec(&rx, subj, nm, (int)efv[a], &pm, &erc) < 0) {
 				printf(" slow");
+				if (want_full) full_add(" ?");
 				nslow++;
 				free(pm);
 				continue;
+			}
+			if (want_full) {
+				/* internal projection: rc and every entry of pmatch */
+				if (erc == REG_NOMATCH) full_add(" -");
+				else if (erc != 0) full_add(" rc");
+				else if (nm == 0 || (cflags & REG_NOSUB)) full_add(" +");
+				else {
+					long k;
+					char tmp[64];
+					for (k = 0; k < nm; k++) {
+						snprintf(tmp, sizeof tmp, "%s%ld,%ld", k ? ";" : " ", (long)pm[k].rm_so, (long)pm[k].rm_eo);
+						full_add(tmp);
+					}
+				}
 			}
 			if (erc != 0 && erc != REG_NOMATCH) {
 				printf(" rc%d!BADRC", erc);
@@ -220,6 +256,7 @@ static void do_x(char **w, int nw)
 	usual_regfree(&rx);
 	trk_on = 0;
 	if (trk_live != 0) printf(" !LEAK%ld", trk_live);
+	if (want_full) printf(" ##%s", fulllen ? fullbuf : "");
 	printf("\n");
 	free(pat);
 }
@@ -299,7 +336,8 @@ int main(int argc, char **argv)
 		if (strcmp(line, "#case") == 0) { puts("#case"); continue; }
 		nw = hc_words(line, w, 4096);
 		if (nw == 0) { puts("bad-op"); continue; }
-		if (!strcmp(w[0], "x")) do_x(w, nw);
+		if (!strcmp(w[0], "x")) { want_full = 0; do_x(w, nw); }
+		else if (!strcmp(w[0], "y")) { want_full = 1; do_x(w, nw); }
 		else if (!strcmp(w[0], "p")) do_p(w, nw);
 		else puts("bad-op");
 	}
